@@ -300,11 +300,20 @@ Proof.
   intros h n s w ws ex b x [[op [nc [c E]]]|[op [nc E]]]; unfold fileno_of, port_of in E; rewrite PM.gss in E; discriminate.
 Qed.
 
+Lemma open_fileno_once : forall i st, hist_inv st -> once_inv (nextfd st) (objs (hp st)) (oslog st) None ->
+  once_inv (nextfd (open_fileno i st)) (objs (hp (open_fileno i st))) (oslog (open_fileno i st)) None.
+Proof.
+  intros i st HI OI. pose proof (fresh_not_obj st HI) as FR. unfold open_fileno, alloc; simpl.
+  apply once_alloc_owner; auto.
+  intros x [[op [nc [c E]]]|[op [nc E]]]; unfold fileno_of, port_of in E; rewrite PM.gss in E; simpl in E;
+    [inversion E; auto | discriminate].
+Qed.
+
 Theorem step_full_inv : forall o st st', full_inv st -> step o st = Some st' -> full_inv st'.
 Proof.
   intros o st st' [HI OI] H. split; [eapply step_inv; eauto|].
   pose proof (fresh_not_obj st HI) as FR.
-  destruct o as [i|i a b|i k v|i| |i|i|i f|i]; unfold step in H; cbv beta iota in H.
+  destruct o as [i|i a b|i k v|i| |i|i|i f|i|i|i f|a b]; unfold step in H; cbv beta iota in H.
   - unfold alloc in H. inversion H; subst; simpl. apply once_alloc_plain; auto. intros x. apply owns_plain_new.
   - unfold alloc in H. inversion H; subst; simpl. apply once_alloc_plain; auto. intros x. apply owns_plain_new.
   - unfold alloc in H. inversion H; subst; simpl. apply once_alloc_plain; auto. intros x. apply owns_plain_new.
@@ -314,9 +323,7 @@ Proof.
   - unfold alloc in H. inversion H; subst; simpl. apply once_alloc_owner; auto.
     intros x [[op [nc [c E]]]|[op [nc E]]]; unfold fileno_of, port_of in E; rewrite PM.gss in E; simpl in E;
       [discriminate | inversion E; auto].
-  - unfold alloc in H. inversion H; subst; simpl. apply once_alloc_owner; auto.
-    intros x [[op [nc [c E]]]|[op [nc E]]]; unfold fileno_of, port_of in E; rewrite PM.gss in E; simpl in E;
-      [inversion E; auto | discriminate].
+  - inversion H; subst st'. apply open_fileno_once; auto.
   - destruct (slot st f) as [|fa] eqn:SF; [inversion H; subst; auto|].
     destruct (PM.find fa (objs (hp st))) as [fo|] eqn:Ffa; [|inversion H; subst; auto].
     destruct (kind fo) as [| |op nc fd c] eqn:Kf; try (inversion H; subst; auto; fail).
@@ -331,6 +338,16 @@ Proof.
     destruct (kind po) as [|op nc s| ] eqn:Kp; try (inversion H; subst; auto; fail).
     pose proof (once_finalize_port (nextfd st) (objs (hp st)) (oslog st) p OI) as I1.
     destruct (finalize_port (objs (hp st)) (oslog st) p) as [h1 log1]. inversion H; subst; simpl. exact I1.
+  - (* OCloseFd: the hand-made close is the finaliser's own transition *)
+    destruct (fileno_state st i) as [[|]|] eqn:FS; [|discriminate|inversion H; subst; auto].
+    destruct (fileno_state_true _ _ FS) as [f [fo [fd [c [SF [Ff Kf]]]]]]. rewrite SF in H.
+    pose proof (once_fileno (nextfd st) (objs (hp st)) (oslog st) None f OI) as I1.
+    destruct (finalize_fileno (objs (hp st)) (oslog st) f) as [h1 log1]. inversion H; subst; simpl. exact I1.
+  - (* ODup *)
+    destruct (fileno_state st f) as [[|]|]; [|discriminate|inversion H; subst; auto].
+    inversion H; subst st'. apply open_fileno_once; auto.
+  - (* ODupTo *)
+    destruct (fileno_state st a) as [[|]|]; destruct (fileno_state st b) as [[|]|]; try discriminate; inversion H; subst; auto.
 Qed.
 
 Lemma init_full_inv : forall n fuel, full_inv (init n fuel).
@@ -360,3 +377,28 @@ Lemma history_fd_closed_at_most_once_l : forall ops n fl st,
 Proof.
   intros ops n fl st H. destruct (run_full_inv ops _ _ (init_full_inv n fl) H) as [_ [ND [IJ [OP _]]]]. auto.
 Qed.
+
+(** F-C16-2 (repaired in /repo: "fix: close-file-descriptor marks the fileno object closed ..."): close-file-descriptor as
+    pinned before the fix was close(2) applied to the number — the fileno object stayed open.  Then the finaliser of the
+    dropped object closes the descriptor a second time (by then the number may belong to somebody else). *)
+Definition close_fd_pinned (i : nat) (st : state) : state :=
+  match slot st i with
+  | Ptr f => match PM.find f (objs (hp st)) with
+             | Some fo => match kind fo with
+                          | KFileno _ _ fd _ =>
+                              mkState (hp st) (slots st) (obs st) (oslog st ++ [fd]) (next st) (nextfd st) (fuel st)
+                          | _ => st
+                          end
+             | None => st
+             end
+  | Imm => st
+  end.
+
+Lemma closed_once_refuted_for_pinned_close_file_descriptor_l :
+  exists st, run [ODrop 0; OGc] (close_fd_pinned 0 (open_fileno 0 (init 1 100))) = Some st /\ oslog st = [0; 0]%Z.
+Proof. eexists; split; vm_compute; reflexivity. Qed.
+
+(** the repaired operation on the same history: closed once *)
+Example closed_once_with_repaired_close_file_descriptor :
+  exists st, run [OFileno 0; OCloseFd 0; ODrop 0; OGc] (init 1 100) = Some st /\ oslog st = [0]%Z.
+Proof. eexists; split; vm_compute; reflexivity. Qed.
